@@ -36,6 +36,10 @@ chk("C15","XSTATE","model_checking","breadth-first explicit-state search over vo
     "Every stream of up to 4 (quick) / 5-6 (thorough) letters (valid votes for A/B/nil, wrong signer, wrong address, out-of-range index, wrong round/type/height, peer majority claims) over 8 validator sets up to the int64 overflow boundary is applied to the real VoteSet (and through HeightVoteSet); after every letter majority, 2/3-any, has-all, bit arrays and AddVote's verdict must equal the reference, a reported majority never changes, and MakeCommit must pass VerifyCommit while every single-vote tampering fails it.",
     "At most 4 validators; stream length as reported in the evidence; collision-free hashes/signatures.")
 
+chk("C16","XSTATE","model_checking","breadth-first explicit-state search over operation histories on the real ValidatorSet (two live copies, real State save/load); relational oracles; canonical-state merging with merge oracle",
+    "All histories of increments (1,2,3), Copy, Add, Update, Remove and the real State.Save/LoadState round trip over 90 start sets (all {1,2,3,5}^n for n<=3, six 4-validator vectors) to depth 3-4 (quick) / 4-6 (thorough) are replayed on fresh real sets; determinism, batched = sequential rounds (as enterNewRound composes them), copy independence, persistence round trip, exact proportionality of every window of T selections, and sortedness/total/hash-from-scratch are each evaluated independently at every state.",
+    "Depth per set size as reported in the evidence; int64 overflow and empty sets not covered.")
+
 NOT_YET = "check not built yet in this round (planned in DESIGN.md §5); not claimed until its quick check passes on the unchanged tree"
 props=[json.loads(l)['id'] for l in open('/verif/properties.jsonl')]
 m={"version":1,
